@@ -1,7 +1,5 @@
-CONSTANTS MaxOps = 3  Bug = "CowCopyPrivate"  Emit = FALSE
-  Ops = {"alloc", "free", "dfree", "lazy", "fault", "own", "unmap"}
-  UPages = {1, 4}
-CONSTANT Configs <- MCConfigsHist
+CONSTANTS Bug = "CowCopyPrivate"  Emit = FALSE
+CONSTANT Configs <- MCBugs
 INIT Init
 NEXT Next
 INVARIANT NoMismatch
